@@ -10,7 +10,8 @@ LEVEL = "proof"
 LEVEL_TEXT = ("plot_mode_to_idx (all 7 modes: the whole domain), prepare_axis (7 modes x 3 length units: labels name the "
               "plotted coordinates and the unit, 3-D axes only for xyz), traj (7 modes, trajectories of any length: the line's "
               "data are the columns of the trajectory's own positions named by the mode, in pose order) and traj_xyz (x / y / z "
-              "against the timestamps, shifted by the start time, or against the pose index; labels) are verified against a "
+              "against the timestamps, shifted by the start time, or against the pose index; labels), add_start_end_markers "
+              "(first / last pose, the axes of the mode) and speeds (value k at the timestamp of pose k+1) are verified against a "
               "ghost Axes that records what reaches matplotlib.  Colour-mapped segments, start / end markers, coordinate-frame "
               "markers, correspondence edges, roll/pitch/yaw, speeds and error-value plots: bounded stand-in that inspects the "
               "real matplotlib artists (Agg backend).")
@@ -20,7 +21,7 @@ SIDECARS = ["contracts.lie_algebra", "contracts.geometry", "contracts.filters", 
             "contracts.overwrite", "contracts.plots"]
 OVERRIDES = _ow.OVERRIDES
 PL = "evo.tools.plot."
-FUNCTIONS = [PL + "plot_mode_to_idx", PL + "prepare_axis", PL + "traj", PL + "traj_xyz"]
+FUNCTIONS = [PL + "plot_mode_to_idx", PL + "prepare_axis", PL + "traj", PL + "traj_xyz", PL + "add_start_end_markers", PL + "speeds"]
 LEMMAS = []
 TRUSTED = ["Axes.plot(x, y[, z]) draws the given data in order; Axes.set_xlabel etc. set the label"]
 ASSUMPTIONS = ["rendering (matplotlib) trusted; ros_map / map_tile not covered"]
